@@ -196,7 +196,7 @@ def main():
                        "sopht/simulator/immersed_body/rigid_body/derived_rigid_bodies.py"])
     chk.maybe_replay()
     sopht_modules()
-    ne_list = [2] if chk.quick else [2, 3]
+    ne_list = [2, 3] if chk.quick else [2, 3, 4]
     tapers = ["uniform", "linear", "thin"]
     for ne in ne_list:
         for taper in tapers:
